@@ -480,7 +480,7 @@ def c01_r7(ctx):
 
 
 # ====================================================================== C08
-@rule("C08.R1", "mixin-vs-unpack decision and class bases", min_instances=6)
+@rule("C08.R1", "mixin-vs-unpack decision and class bases", min_instances=6, also=["C01", "C04"])
 def c08_r1(ctx):
     repo = ctx.repo
     fi = repo.func(RT + "_unpack_fragment")
@@ -589,7 +589,7 @@ def c08_r2(ctx):
     ctx.note(f"_generate_fragments guard: {[norm(t)[:90] for t in tests]}")
 
 
-@rule("C08.R3", "fragment classes are emitted in dependency post-order from sorted roots", min_instances=4, also=["C04"])
+@rule("C08.R3", "fragment classes are emitted in dependency post-order from sorted roots", min_instances=4, also=["C04", "C01"])
 def c08_r3(ctx):
     repo = ctx.repo
     outer = repo.func("client_generators.fragments:FragmentsGenerator._get_sorted_fragments_names")
